@@ -2,7 +2,10 @@
 use crate::SendMode;
 use crate::frame;
 
+#[cfg(not(uflow_verif))]
 use std::time;
+#[cfg(uflow_verif)]
+use crate::verif::time;
 
 mod emit;
 mod frame_ack_queue;
